@@ -67,7 +67,7 @@ TEXTS["C09"] = dict(
     level_note=TRUST)
 TEXTS["C06"] = dict(
     technique="fault injection in deterministic simulation: complete single-fault matrix (site x request kind x batch size x position) + seeded multi-fault sequences under concurrent load",
-    level_text="The single-fault matrix (941 cases: 20 dependency/IO/input fault sites x 5 request kinds x batch sizes {1,2,3,5,17} x every position) is enumerated completely "
+    level_text="The single-fault matrix (1043 cases: 22 dependency/IO/input fault sites x 5 request kinds x batch sizes {1,2,3,5,17} x every position) is enumerated completely "
                "on every run of either tier against the real handler-to-badger stack, with faults injected through the repo's interfaces and, for the store, through "
                "the verifhook storage points; on top of it seeded runs inject store/rules/Sign faults at yield points of 2-6 concurrent requests, pre-drawn "
                "lookup/permission/unlock faults and a store closed under load, a third of them over like-named accounts of two wallets. Oracle: signature iff SUCCEEDED at every position, no signature at any position whose "
@@ -99,7 +99,7 @@ TEXTS["C13"] = dict(
     level_note=TRUST2 + " Faults during commit are outside this property (C13 covers prepare/execute/contribute).")
 TEXTS["C16"] = dict(
     technique="deterministic cluster simulation: complete caller-identity x message x session-state table through the real receiver handlers (fake clock for expiry) + share-ownership monitor on the simulated transport",
-    level_text="The 210-case table {peer, peer outside the generation, fully-permitted ordinary client, empty, unknown, peer name in other case, peer name with suffix} x {prepare, execute, contribute, commit, abort} x "
+    level_text="The 360-case table {peer, peer outside the generation, fully-permitted ordinary client, empty, unknown, peer name in other case, with a suffix, as host of a longer domain name, with a trailing dot, a prefix of it, with a port, with a leading space} x {prepare, execute, contribute, commit, abort} x "
                "{none, prepared, executed, committed, aborted, expired} is enumerated completely on a 4-instance cluster (3 participants) of real services: a non-peer must get an error and no share, and "
                "the legitimate run must continue from that state to a committed account on every participant (so a refused message created, deleted or altered nothing). A monitor "
                "checks every contribution the transport carries (here and in seeded generations with drawn n, t and id sets): the share equals the originator's vector evaluated at the "
